@@ -344,11 +344,14 @@ pub fn gen_plan(rng: &mut Prng, property: &str, tier: &Tier) -> EnvPlan {
             }
         }
     };
-    let nvars = rng.range(1, 6);
+    // C13 only: one run in eight uses 7-10 variables ("big" runs: diagrams with hundreds of nodes;
+    // functions are then tracked by structural hash instead of a 64-bit truth table)
+    let big = property == "C13" && rng.chance(1, 8);
+    let nvars = if big { rng.range(7, 10) } else { rng.range(1, 6) };
     // mostly small universes (every pair of states is reachable), sometimes up to 2^8 elements
     let set_bits = if rng.chance(1, 8) { rng.range(5, 8) } else { rng.range(1, 4) };
     let clients = rng.range(1, tier.max_clients as usize) as u8;
-    let nsteps = rng.range(5, tier.max_steps);
+    let nsteps = if big { rng.range(5, 25) } else { rng.range(5, tier.max_steps) };
     let mut names: Vec<String> = fast::NAME_POOL.iter().map(|s| s.to_string()).collect();
     rng.shuffle(&mut names);
     names.truncate(nvars);
@@ -432,13 +435,13 @@ pub fn gen_plan(rng: &mut Prng, property: &str, tier: &Tier) -> EnvPlan {
                 cands.push(2);
                 cands.push(3);
             }
-            if faults.foreign {
+            if faults.foreign && !big {
                 cands.push(4);
             }
             if faults.redo {
                 cands.push(5);
             }
-            if faults.alloc && nvars >= 4 {
+            if faults.alloc && nvars >= 4 && !big {
                 cands.push(6);
             }
             if !cands.is_empty() {
@@ -1063,14 +1066,9 @@ impl<'p, W: World> Exec<'p, W> {
         };
         let f = ex.env.mk_const(false);
         let t = ex.env.mk_const(true);
-        ex.handles.insert(0, Handle { rc: f, tt: 0 });
-        ex.handles.insert(
-            1,
-            Handle {
-                rc: t,
-                tt: low_mask(plan.nvars),
-            },
-        );
+        let (ft, tt) = (ex.walk(&f).unwrap_or(0), ex.walk(&t).unwrap_or(0));
+        ex.handles.insert(0, Handle { rc: f, tt: ft });
+        ex.handles.insert(1, Handle { rc: t, tt });
         ex
     }
 
@@ -1083,6 +1081,11 @@ impl<'p, W: World> Exec<'p, W> {
     }
 
     fn walk(&self, node: &BDD<W::S>) -> Result<u64, String> {
+        if self.n > 6 {
+            // big runs: the structural hash stands in for the truth table (same structure, same
+            // function); only the structural oracles I1-I5 run in this mode
+            return Ok(node.get_hash());
+        }
         let syms = &self.names;
         walk64(node, self.n, &|s| syms.index_of(W::idx(s)))
     }
@@ -1104,6 +1107,9 @@ impl<'p, W: World> Exec<'p, W> {
     }
 
     fn keep(&mut self, rc: Rc<BDD<W::S>>, tt: u64) {
+        if self.n > 6 {
+            bump(&mut self.stats, "probe.big_run_handle");
+        }
         if self.handles.len() >= MAX_HANDLES {
             if let Some(oldest) = self.handles.range(2..).next().map(|(k, _)| *k) {
                 self.handles.remove(&oldest);
@@ -1305,7 +1311,7 @@ impl<'p, W: World> Exec<'p, W> {
                     self.faults_fired += 1;
                 }
             }
-            Op::Exists(vs, _) | Op::All(vs, _) => {
+            Op::Exists(vs, _) | Op::All(vs, _) if self.n <= 6 => {
                 let tt = self.walk(&args[0]).unwrap_or(0);
                 let sup: Vec<usize> = (0..self.n)
                     .filter(|i| {
@@ -1596,6 +1602,7 @@ impl<'p, W: World> Exec<'p, W> {
                 self.junk.truncate(k);
                 Ok(true)
             }
+            Op::ForeignFind(_) | Op::Bulk(..) if self.n > 6 => Ok(true),
             Op::ForeignFind(bits) => {
                 // a node of another environment; `find`/`clean` on it panics by contract unless an
                 // equal structure happens to be registered here. The caller catches and carries on.
